@@ -1,7 +1,7 @@
 //! Generators: exhaustive enumerators for small graphs, seeded random families beyond.
 
 use crate::choice::Rng;
-use crate::model::{GraphSpec, UserGraph, EK};
+use crate::model::{GraphSpec, Mask, UserGraph, EK};
 use crate::spec::{Api, Intr, Mode, RunSpec, SignalPlan, ALL_APIS};
 
 /// All labelled DAGs on n nodes, as edge lists (pair order). 1, 1, 3, 25, 543, 29281, 3781503 …
@@ -84,9 +84,9 @@ impl Iterator for DagEnum {
 
 /// All assignments of {none, read, write} of one data type to n functions (3^n), or over two data
 /// types (9^n) when `two` is set. Index based so that workers can shard.
-pub fn access_assignment(n: usize, two: bool, mut idx: usize) -> (Vec<u8>, Vec<u8>) {
-    let mut r = vec![0u8; n];
-    let mut w = vec![0u8; n];
+pub fn access_assignment(n: usize, two: bool, mut idx: usize) -> (Vec<Mask>, Vec<Mask>) {
+    let mut r: Vec<Mask> = vec![0; n];
+    let mut w: Vec<Mask> = vec![0; n];
     for i in 0..n {
         let base = if two { 9 } else { 3 };
         let d = idx % base;
@@ -147,7 +147,7 @@ pub const FAMILIES: [Family; 13] = [
 pub struct GraphProfile {
     pub min_n: usize,
     pub max_n: usize,
-    /// Number of data types to draw accesses from (1..=8); 0 = no access declarations.
+    /// Number of data types to draw accesses from (1..=128); 0 = no access declarations.
     pub types: usize,
     /// Per function: max number of declared accesses.
     pub max_access: usize,
@@ -257,9 +257,9 @@ fn family_edges(rng: &mut Rng, fam: Family, n: usize) -> Vec<(usize, usize)> {
     e
 }
 
-pub fn random_access(rng: &mut Rng, n: usize, p: &GraphProfile) -> (Vec<u8>, Vec<u8>) {
-    let mut reads = vec![0u8; n];
-    let mut writes = vec![0u8; n];
+pub fn random_access(rng: &mut Rng, n: usize, p: &GraphProfile) -> (Vec<Mask>, Vec<Mask>) {
+    let mut reads: Vec<Mask> = vec![0; n];
+    let mut writes: Vec<Mask> = vec![0; n];
     if p.types == 0 {
         return (reads, writes);
     }
@@ -339,6 +339,10 @@ pub fn wide_graph(rng: &mut Rng, n: usize) -> GraphSpec {
     p.types = 2;
     p.max_access = 1;
     p.write_pct = 10;
+    if rng.chance(1, 3) {
+        // no access declarations at all: no data edges, everything that can be ready is ready at once
+        p.types = 0;
+    }
     random_graph_of(rng, fam, n, &p)
 }
 
